@@ -330,31 +330,49 @@ theorem key_mem_ensureNode (nodes : List Node) (k : Bytes) : k ∈ (VLog.ensureN
     exact List.mem_map.mpr ⟨n, hn, hk⟩
   · simp [VLog.freshNode]
 
+theorem mem_ensureNode_key (nodes : List Node) (hnd : (nodes.map (·.key)).Nodup) (k : Bytes) (n : Node)
+    (hn : n ∈ VLog.ensureNode nodes k) (hk : n.key = k) :
+    n = (nodes.find? (fun x => x.key = k)).getD (VLog.freshNode k) := by
+  simp only [VLog.ensureNode] at hn
+  split at hn
+  · have := find_unique nodes hnd n hn
+    rw [hk] at this
+    simp [this]
+  · rename_i hany
+    have hno : ∀ n ∈ nodes, n.key ≠ k := (any_false_iff nodes k).mp (by simpa using hany)
+    have hnone := (find_none_iff nodes k).mpr hno
+    rcases List.mem_append.mp hn with h | h
+    · exact absurd hk (hno n h)
+    · simp at h; simp [h, hnone]
+
 /-- the abstraction of an upsert is the upsert of the abstraction -/
-theorem map_upsert (nodes : List Node) (log log' : List Entry) (k : Bytes) (f : Node → Node) (g : Cell → Cell)
+theorem map_upsert (nodes : List Node) (hnd : (nodes.map (·.key)).Nodup) (log log' : List Entry) (k : Bytes) (f : Node → Node) (g : Cell → Cell)
     (hfresh : (∀ n ∈ nodes, n.key ≠ k) → versionsOf k log = [])
-    (hk : ∀ n, n.key = k → absNode log' (f n) = g (absNode log n))
+    (hk : absNode log' (f ((nodes.find? (fun x => x.key = k)).getD (VLog.freshNode k)))
+            = g (absNode log ((nodes.find? (fun x => x.key = k)).getD (VLog.freshNode k))))
     (hother : ∀ n, n.key ≠ k → absNode log' n = absNode log n) :
     (VLog.upsertNode nodes k f).map (absNode log') = Spec.upsert (nodes.map (absNode log)) k g := by
-  simp only [VLog.upsertNode, Spec.upsert, VLog.ensureNode, Spec.ensure, any_key_map]
-  have hmod : ∀ l : List Node, (VLog.modifyNode l k f).map (absNode log') = Spec.modify (l.map (absNode log)) k g := by
-    intro l
+  have hmod : (VLog.modifyNode (VLog.ensureNode nodes k) k f).map (absNode log')
+      = Spec.modify ((VLog.ensureNode nodes k).map (absNode log)) k g := by
     simp only [VLog.modifyNode, Spec.modify, List.map_map]
     apply List.map_congr_left
-    intro n _
+    intro n hn
     by_cases h : n.key = k
     · have h1 : (absNode log n).key = k := h
       simp only [Function.comp, h, h1, if_true]
-      exact hk n h
+      rw [mem_ensureNode_key nodes hnd k n hn h]
+      exact hk
     · have h1 : (absNode log n).key ≠ k := h
       simp only [Function.comp, h, h1, if_false]
       exact hother n h
+  simp only [VLog.upsertNode, Spec.upsert]
+  rw [hmod]
+  congr 1
+  simp only [VLog.ensureNode, Spec.ensure, any_key_map]
   split
-  · exact hmod nodes
+  · rfl
   · rename_i hany
     have hno : ∀ n ∈ nodes, n.key ≠ k := (any_false_iff nodes k).mp (by simpa using hany)
-    rw [hmod]
-    congr 1
     simp [absNode, VLog.freshNode, Spec.fresh, hfresh hno]
 
 theorem sum_upsert (F : Cell → Int) (cells : List Cell) (k : Bytes) (g : Cell → Cell)
